@@ -54,11 +54,14 @@ class Case:
     pass
 
 
-def make_cases(chk, routes, lits, n, rich=False, all_lits=False, lit_names=False, dotted=True, per_route=10, nested=None):
+def make_cases(chk, routes, lits, n, rich=False, all_lits=False, lit_names=False, dotted=True, per_route=10, nested=None, rel_p=0.25):
     cases = []
     for i in range(n):
         c = Case()
         G.LIT_P[0] = 0.6 if lit_names else 0.10
+        # a quarter of the passwords are RELATED to other settings (equal to / a piece of the user name, another field of the
+        # module, the profile name, the client id, 1-3 characters): a masking or comparing handler can go wrong exactly there
+        G.REL_P[0] = rel_p
         # every third configuration carries nested-name families (x, x.y, x.y.z in every profile/module section, with
         # client profiles, clusters and consumers pointing at the parent and at each child)
         c.cfg, c.info = G.gen_config(chk.rng, lits if (lit_names or chk.rng.random() < 0.5) else [], rich=rich or (i % 5 == 0),
@@ -66,6 +69,12 @@ def make_cases(chk, routes, lits, n, rich=False, all_lits=False, lit_names=False
         G.LIT_P[0] = 0.10
         c.tokA, c.tokB = G.gen_tokens(chk.rng, c.cfg)
         c.cfgA, c.cfgB = G.materialise(c.cfg, c.tokA), G.materialise(c.cfg, c.tokB)
+        # a token is searched for only if nothing else in the configuration contains it (else a hit proves nothing: it is
+        # the user name that is shown); for the others the verdict comes from the cfg / cfg' comparison alone
+        text = G.public_text(c.cfg)
+        c.skipA = {i for i, t in enumerate(c.tokA) if not G.searchable(t, text)}
+        c.skipB = {i for i, t in enumerate(c.tokB) if not G.searchable(t, text)}
+        c.leaves = [(keys, leaf.idx, leaf.kind) for keys, leaf in G.pw_leaf_keys(c.cfg)]
         c.world = G.world_for(chk.rng, c.cfg)
         c.reqs = G.build_requests(chk.rng, routes, c.cfg, c.world, lits, per_route=per_route, all_lits=all_lits)
         c.usernames = sorted({str(v.get("username")) for sec in G.PW_SECTIONS for v in c.cfgA.get(sec, {}).values()
@@ -85,9 +94,11 @@ def run_lines(chk, lines, name):
     return outs
 
 
-def needles_for(tokens, usernames):
+def needles_for(tokens, usernames, skip=()):
     out = []
     for ti, t in enumerate(tokens):
+        if ti in skip:
+            continue
         for form, b in G.leak_forms(t, usernames).items():
             out.append((ti, form, b))
     return out
@@ -121,7 +132,7 @@ def judge(chk, cases, rows, tag, count=True):
     stats = {"pairs": 0, "taint_tokens_seen": 0, "taint_tokens_explained": 0}
     for ci, c in enumerate(cases):
         ra, rb = per[ci]["A"], per[ci]["B"]
-        nA, nB = needles_for(c.tokA, c.usernames), needles_for(c.tokB, c.usernames)
+        nA, nB = needles_for(c.tokA, c.usernames, c.skipA), needles_for(c.tokB, c.usernames, c.skipB)
         pw_paths = G.password_paths(c.cfg)
         if count:
             chk.count("config:passwords=%d" % min(c.info["n_pw"], 6))
@@ -130,6 +141,10 @@ def judge(chk, cases, rows, tag, count=True):
             chk.count("config:dotted-names=%s" % ("yes" if c.info["dotted"] else "no"))
             chk.count("config:sasl-profiles=%d" % len(c.cfg.get("sasl", {})))
             chk.count("config:nested-name-families=%d" % min(c.info.get("families", 0), 9))
+            for kd in c.info.get("related", []):
+                chk.count("password:related:" + kd.split(":")[0])
+            chk.count("password:random-token", c.info["n_pw"] - len(c.info.get("related", [])))
+            chk.count("password:not-searchable(judged by cfg/cfg' comparison only)", len(c.skipA))
         for j, (m, p, b, meta) in enumerate(c.reqs):
             stats["pairs"] += 1
             a, bb = ra[j], rb[j]
@@ -152,7 +167,7 @@ def judge(chk, cases, rows, tag, count=True):
             if G.canon_response(a, meta["handler"]) != G.canon_response(bb, meta["handler"]):
                 diffs.append(dict(case=ci, req=j, method=m, path=p, body=b, handler=meta["handler"], route=meta["route"],
                                   params=meta["params"], config=c.cfgA, config2=c.cfgB, world=c.world,
-                                  a=a, b=bb))
+                                  a=a, b=bb, leaves=[(keys, c.tokA[i], c.tokB[i], kind) for keys, i, kind in c.leaves]))
             if count and a["code"] == 200 and c.info["n_pw"] > 0 and meta["params"]:
                 chk.nontrivial.add(C.case_hash("%s|%s|%d|%s" % (meta["route"], "/".join(meta["classes"]), ci, p)))
         # taint: every token seen must be covered by a row of the handler
@@ -210,7 +225,30 @@ def confirm_diffs(chk, diffs):
             confirmed.append(d)
         else:
             chk.count("oracle:nondeterministic-response")
+    for d in confirmed[:3]:
+        attribute_diff(chk, d)
     return confirmed
+
+
+def attribute_diff(chk, d):
+    """Which password makes the difference: cfg with ONE password taken from cfg' at a time; the smallest configuration
+    pair is kept for the replay."""
+    d["culprits"] = []
+    if not d.get("leaves"):
+        return
+    req = [(d["method"], d["path"], d["body"], None)]
+    try:
+        hybrids = [G.set_at(d["config"], keys, vb) for keys, va, vb, kind in d["leaves"]]
+        outs = run_lines(chk, [G.case_line(h, d["world"], req) for h in hybrids], "attribute")
+        c0 = G.canon_response(d["a"], d["handler"])
+        for (keys, va, vb, kind), h, o in zip(d["leaves"], hybrids, outs):
+            if not isinstance(o, str) and G.canon_response(o[0], d["handler"]) != c0:
+                d["culprits"].append({"password_key": ".".join(keys), "value_under_cfg": va, "value_under_cfg_prime": vb,
+                                      "relation_to_other_settings": kind or "none (random token)"})
+                if len(d["culprits"]) == 1:
+                    d["config2"], d["b"] = h, o[0]
+    except Exception as e:  # attribution is a convenience
+        chk.notes.append("attribution of a cfg/cfg' difference failed: %s" % e)
 
 
 def still_leaks(out, token, form, usernames):
@@ -286,7 +324,10 @@ def run(chk, failed):
                 "http/email/slack/null, names incl. mixed case, dotted, key words such as 'password', string literals of the "
                 "httpserver sources; every third configuration with nested-name families x / x.y / x.y.z in sasl, tls, "
                 "client-profile, cluster, consumer, notifier, storage -- parent explicit or implied, child names incl. key words -- "
-                "each member referenced by a client profile, a cluster and a consumer) with high-entropy password tokens (plain, with JSON/URL/HTML-special characters, numeric); "
+                "each member referenced by a client profile, a cluster and a consumer) with password values that are high-entropy tokens (plain, with "
+                "JSON/URL/HTML-special characters, numeric) or -- a quarter of them -- RELATED to other settings (equal to / prefix / "
+                "suffix / inside / extension of the user name, equal to or part of another field of the module, the profile name, a "
+                "client id, 1-3 characters; such values are not searched for, they are judged by the cfg/cfg' comparison); "
                 "EVERY registered route of the regenerated RouteTable with every configured name and near-misses "
                 "(case variants, <name>.password, <section>.<name>.password, other sections' names, key words) as parameters, "
                 "served by the real router under cfg and under cfg' (same configuration, fresh tokens); plus two taint runs per "
@@ -329,7 +370,7 @@ def run(chk, failed):
         # literals of the sources (a leak that needs one particular name), every literal as a parameter and as the key
         # of a query string
         C.log("C18: obligation failed, no leak in the standard batch; running the focused search")
-        for rnd, kw in enumerate((dict(rich=True, nested=True, dotted=False, per_route=40),
+        for rnd, kw in enumerate((dict(rich=True, rel_p=0.9, per_route=20), dict(rich=True, nested=True, dotted=False, per_route=40),
                                   dict(rich=True, all_lits=True, per_route=30), dict(rich=True, lit_names=True, all_lits=True, per_route=30, nested=True),
                                   dict(rich=False, lit_names=True, all_lits=True, dotted=False, per_route=30))):
             for rep in range(1 if not chk.thorough else 10):
@@ -365,7 +406,7 @@ def run(chk, failed):
         chk.violation("differs_%d" % i, {
             "kind": "input", "probe": "httpserver/TestVerifProbeHttpcfg", "request": "%s %s" % (d["method"], d["path"]),
             "method": d["method"], "path": d["path"], "body": d["body"], "handler": d["handler"], "config": d["config"],
-            "config_prime": d["config2"], "world": d["world"],
+            "config_prime": d["config2"], "world": d["world"], "passwords_that_make_the_difference": d.get("culprits", []),
             "impl_output": G.response_blob(d["a"]).decode("utf-8", "replace")[:1500],
             "impl_output_prime": G.response_blob(d["b"]).decode("utf-8", "replace")[:1500],
             "oracle_verdict": "two configurations that differ only in password values get different responses (the request is "
